@@ -18,6 +18,7 @@ import CtyModel.Lemmas.StdNumFmt
 import CtyModel.Lemmas.d14Fmt
 import CtyModel.Lemmas.d14Str
 import CtyModel.Lemmas.d14FormatList
+import CtyModel.Lemmas.d14Date
 import CtyModel.Props.C02
 namespace CtyModel
 namespace C14
@@ -715,6 +716,75 @@ theorem format_never_panics (L : Lib) (f : String) (args : List Value) :
     | panic w => rw [hx] at h; simp [Res.isPanic] at h
     | unmodelled => rfl
 
+/-! ## formatdate -/
+
+/-- The tokenizer of `formatdate` (`splitDateFormat`) loses nothing: the tokens, concatenated,
+are the format string (the fuel the model passes always suffices) … -/
+theorem formatdate_tokenizer_loses_nothing (format : String) :
+    (tokenize (format.length + 1) format.toList).flatten = format.toList :=
+  tokenize_flatten _ _ (by rw [String.length_toList]; omega)
+
+/-- … and every token is a quoted literal (starts with `'`), a run of ONE letter (a verb), or
+literal text holding neither a letter nor a quote after its first character. -/
+theorem formatdate_token_kinds (c : Char) (rest : List Char) :
+    (c = '\'') ∨
+    (isVerbStart c = true ∧ ∃ k, (nextToken (c :: rest)).1 = List.replicate (k + 1) c) ∨
+    (∀ d ∈ (nextToken (c :: rest)).1.drop 1, (d == '\'' || isVerbStart d) = false) :=
+  nextToken_kind c rest
+
+/-- **12-hour clock** (a seeded change made noon "AM"): for every hour 0…23, `H`/`HH` show
+the clock-face hour — 12 at midnight and at noon, `hour mod 12` otherwise — and `AA`/`aa` say
+AM exactly before noon and PM from 12:00 on. -/
+theorem formatdate_clock12 (t : Time) (h24 : t.hour < 24) :
+    verbText t 'H' 1 = .ok (toString (hour12 t.hour)) ∧ verbText t 'H' 2 = .ok (pad2 (hour12 t.hour)) ∧
+    verbText t 'A' 2 = .ok (if t.hour < 12 then "AM" else "PM") ∧
+    verbText t 'a' 2 = .ok (if t.hour < 12 then "am" else "pm") ∧
+    1 ≤ hour12 t.hour ∧ hour12 t.hour ≤ 12 ∧ hour12 t.hour % 12 = t.hour % 12 := by
+  obtain ⟨h1, h2, h3, h4⟩ := clock12 t h24
+  exact ⟨h1, h2, h3, h4, hour12_range t.hour⟩
+
+/-- **Zone offsets with minutes** (a seeded change lost the sign of the minutes of a negative
+offset): `ZZZZ` / `ZZZZZ` render an offset of ±(h hours, m minutes) as sign, two-digit hours,
+(colon,) two-digit minutes — `-03:30` stays `-03:30`. -/
+theorem formatdate_zone_offsets (neg : Bool) (h m : Nat) (hm : m < 60)
+    (hnz : neg = true → 0 < h * 3600 + m * 60) (colon : Bool) :
+    zoneNum (if neg then -((h * 3600 + m * 60 : Nat) : Int) else ((h * 3600 + m * 60 : Nat) : Int)) colon =
+      (if neg then "-" else "+") ++ pad2 h ++ (if colon then ":" else "") ++ pad2 m :=
+  zoneNum_spec neg h m hm hnz colon
+
+/-- The verbs render the field they name (on the parsed timestamp the `time` package
+delivered), two-digit fields being exactly two decimal digits. -/
+theorem formatdate_verbs (t : Time) :
+    (verbText t 'Y' 4 = .ok (pad4 t.year) ∧ verbText t 'Y' 2 = .ok (pad2 (t.year % 100)) ∧
+     verbText t 'M' 2 = .ok (pad2 t.month) ∧ verbText t 'M' 1 = .ok (toString t.month) ∧
+     verbText t 'M' 4 = .ok (monthName t.month) ∧
+     verbText t 'D' 2 = .ok (pad2 t.day) ∧ verbText t 'D' 1 = .ok (toString t.day) ∧
+     verbText t 'E' 4 = .ok (dayName t.weekday) ∧
+     verbText t 'h' 2 = .ok (pad2 t.hour) ∧ verbText t 'h' 1 = .ok (toString t.hour) ∧
+     verbText t 'm' 2 = .ok (pad2 t.minute) ∧ verbText t 'm' 1 = .ok (toString t.minute) ∧
+     verbText t 's' 2 = .ok (pad2 t.second) ∧ verbText t 's' 1 = .ok (toString t.second) ∧
+     verbText t 'Z' 4 = .ok (zoneNum t.offset false) ∧ verbText t 'Z' 5 = .ok (zoneNum t.offset true) ∧
+     verbText t 'Z' 1 = .ok (if t.offset == 0 then "Z" else zoneNum t.offset true)) ∧
+    (∀ n, n < 100 → (pad2 n).toList = [Nat.digitChar (n / 10), Nat.digitChar (n % 10)]) :=
+  ⟨verb_table t, pad2_spec⟩
+
+/-- A letter that is no verb is an error, and so is a verb repeated an unsupported number of
+times — `formatdate` fails on a bad token, it does not skip it. -/
+theorem formatdate_bad_verbs (t : Time) :
+    (∀ c n, (c ≠ 'Y' ∧ c ≠ 'M' ∧ c ≠ 'D' ∧ c ≠ 'E' ∧ c ≠ 'h' ∧ c ≠ 'H' ∧ c ≠ 'A' ∧ c ≠ 'a' ∧ c ≠ 'm' ∧ c ≠ 's' ∧
+        c ≠ 'Z') → verbText t c n = .err "invalid date format verb") ∧
+    (verbText t 'Y' 3 = .err "year" ∧ verbText t 'Y' 1 = .err "year" ∧ verbText t 'M' 5 = .err "month" ∧
+     verbText t 'D' 3 = .err "day" ∧ verbText t 'E' 2 = .err "weekday" ∧ verbText t 'h' 3 = .err "hour" ∧
+     verbText t 'H' 3 = .err "hour" ∧ verbText t 'A' 1 = .err "AA" ∧ verbText t 'a' 3 = .err "aa" ∧
+     verbText t 'm' 3 = .err "minute" ∧ verbText t 's' 3 = .err "second" ∧ verbText t 'Z' 2 = .err "timezone") :=
+  ⟨fun c n h => verbText_unknown t c n h, verb_bad_counts t⟩
+
+/-- A timestamp the strict RFC 3339 parser refuses is an error of `formatdate` and of `timeadd`. -/
+theorem date_bad_timestamp (L : Lib) (a b : String) (h : L.parseTimestamp b = none) :
+    formatDateImpl L [sv a, sv b] = .err "not a valid RFC3339 timestamp" ∧
+    timeAddImpl L [sv b, sv a] = .err "not a valid RFC3339 timestamp" := by
+  simp [formatDateImpl, timeAddImpl, h]
+
 /-! ## formatlist -/
 
 /-- the arguments the model of `formatlist` speaks about: wholly known, unmarked, sets only of
@@ -875,6 +945,12 @@ def exLib : Lib :=
     fmtFloat := fun _ _ => "", textG := fun _ => "", jsonStr := id }
 def exWide : VerbSyn := { flags := [], width := some "18446744073709551617".toList, prec := none, idx := none, mode := 'd' }
 example : formatAppend exLib (exWide.verb 0 1) [intVal 1] = .err "unsupported width" := by decide
+-- formatdate: noon and midnight, a negative offset with minutes
+def exNoon : Time := ⟨2021, 6, 13, 0, 12, 7, 9, -12600⟩
+example : verbText exNoon 'H' 1 = .ok "12" ∧ verbText exNoon 'A' 2 = .ok "PM" := by decide
+example : verbText { exNoon with hour := 0 } 'H' 2 = .ok "12" ∧ verbText { exNoon with hour := 0 } 'a' 2 = .ok "am" := by decide
+example : verbText exNoon 'Z' 5 = .ok "-03:30" := by decide
+example : tokenize 7 ['h', 'h', '-', '\'', 'a', '\''] = [['h', 'h'], ['-'], ['\'', 'a', '\'']] := by decide
 -- formatlist: a list, a tuple and a single value; two rows
 def exFl : List Value := [⟨.list .string, .seq [.s "a", .s "b"]⟩, ⟨.tuple [.number, .bool], .seq [.n (.fin false 1 0 64), .b true]⟩, sv "z"]
 example : FlKnown exFl := by unfold FlKnown; decide
